@@ -238,7 +238,7 @@ class Gen:
 			self.cmd(i, "SETTA %d" % self.num(-128, 127, (0, 1, 63, 127, -128, 128, 200, -1)))
 		elif r == 2:
 			self.cmd(i, "FAKE_TOA %d %d" % (self.num(-33000, 33000, (0, 32767, -32768, 32760, 256, -256)),
-				self.num(0, 600, (0, 0, 1, 7, 8, 256))))
+				self.num(0, 600, (0, 0, 1, 7, 8, 256, -1) if rng.random() < 0.3 else (0, 0, 1, 7, 8, 256))))
 		elif r == 3:
 			self.cmd(i, "FAKE_TOA %d" % self.num(-600, 600, (1, -1, 256)))
 		elif r == 4:
@@ -248,7 +248,7 @@ class Gen:
 			self.cmd(i, "FAKE_RSSI %d" % self.num(-10, 10, (1, -1)))
 		elif r == 6:
 			self.cmd(i, "FAKE_CI %d %d" % (self.num(-1300, 1300, (1280, 1281, -1280, -1281, 0, 90)),
-				self.num(0, 50, (0, 0, 1))))
+				self.num(0, 50, (0, 0, 1, -1, -5) if rng.random() < 0.3 else (0, 0, 1))))
 		else:
 			self.cmd(i, "FAKE_CI %d" % self.num(-100, 100, (1, -1)))
 
